@@ -78,7 +78,6 @@ Proof.
   apply Z.le_trans with (Z.of_nat work_fuel); [apply Nat2Z.inj_le; exact H|].
   intros X. vm_compute in X. discriminate X.
 Qed.
-Print Assumptions graph_size.
 
 (* ================================================================================================================== *)
 (* PART 1: one script - its labels, its generated references, its end (no hypothesis on names)                         *)
@@ -225,9 +224,6 @@ Proof.
   - intros i Hi. destruct (R i Hi) as [B T]. split; [|exact T]. pose proof (graph_size body w HW). lia.
 Qed.
 End SCRIPT1.
-Print Assumptions script_targets_defined.
-Print Assumptions script_ends_in_terminator.
-Print Assumptions script_label_names.
 
 (* ================================================================================================================== *)
 (* PART 2: the label definitions and the generated references of the whole program                                     *)
@@ -475,7 +471,6 @@ Proof.
     rewrite (pdF_program _ htarget (fun _ => eq_refl) (fun _ => eq_refl) eq_refl (fun _ _ => eq_refl)), no_data_targets. cbn [app].
     rewrite <- E2, flat_map_map'. reflexivity.
 Qed.
-Print Assumptions program_parts.
 
 (* ================================================================================================================== *)
 (* PART 3: the executable condition on names, and distinctness of all labels of the program                            *)
@@ -615,7 +610,6 @@ Proof.
     assert (Hs : In (script_name (p_script x)) (script_names p)) by (rewrite <- SN; apply in_map_iff; exists x; auto).
     specialize (NI _ _ Hl Hs). rewrite imitates_lbl in NI by lia. discriminate NI.
 Qed.
-Print Assumptions names_ok_all_distinct.
 
 (* ================================================================================================================== *)
 (* PART 4: the closedness theorems for an emitted program (hypothesis on the bodies: the source check, a theorem for    *)
@@ -644,7 +638,6 @@ Proof.
   apply (Permutation_NoDup (Permutation_sym PL)). apply names_ok_all_distinct; [exact NK|exact E|].
   rewrite Forall_forall in *. intros x Hx. eapply part_gen_ok. exact (FP x Hx).
 Qed.
-Print Assumptions program_labels_distinct.
 
 (* ... and the first half of names_ok is necessary: labels pairwise distinct only if the names are *)
 Theorem distinct_labels_need_distinct_names opt mp p prog :
@@ -659,7 +652,6 @@ Proof.
     apply (perm_flat_map_app (fun x => author_names (p_script x)) gen_names parts). }
   apply (Permutation_NoDup P) in ND. exact (nodup_app_l _ _ ND).
 Qed.
-Print Assumptions distinct_labels_need_distinct_names.
 
 (* (2) EVERY GENERATED REFERENCE IS DEFINED: the label of every goto / goto_if_* / case line that the emitter generated, anywhere
    in the output, is defined in the output (no hypothesis on names) *)
@@ -673,7 +665,6 @@ Proof.
   rewrite Forall_forall in FP. destruct (FP x Hx) as (_ & PO & _ & _ & TD & _).
   apply (own_names_in_prog p prog parts x l PL Hx). apply (Permutation_in _ PO). apply TD. exact Hl.
 Qed.
-Print Assumptions program_generated_references_defined.
 
 Definition text_dec := Hoisting.text_dec.
 
@@ -695,7 +686,6 @@ Proof.
     destruct Hl as [<-|Hl]; [now left|right; apply in_or_app; now left]. }
   split; [apply O; now left|intros l Hl; apply O; now right].
 Qed.
-Print Assumptions program_author_labels_present.
 
 (* ... and under names_ok each of them is defined EXACTLY ONCE in the whole output *)
 Theorem program_author_labels_once opt mp p prog :
@@ -709,7 +699,6 @@ Proof.
   destruct (program_author_labels_present opt mp p prog SO H name glob body Hs) as [A B].
   split; [apply count_occ_nodup_in; assumption|]. intros l Hl. apply count_occ_nodup_in; [exact ND|apply B; exact Hl].
 Qed.
-Print Assumptions program_author_labels_once.
 
 (* (4) NO RUN-OFF: every script of the program (script statements and inline map scripts) has its code as a segment of the
    output; the segment ends with return / end / goto followed by a blank line - execution cannot continue into what follows -
@@ -733,7 +722,6 @@ Proof.
   exists (p_code x), pre, post. split; [exact R|]. split; [exact EP|]. split; [exact ET|]. split; [apply ends_in_terminator_closed; exact ET|].
   split; [|exact TD]. apply (Permutation_in _ (Permutation_sym PO)). unfold own_names. rewrite Ex. now left.
 Qed.
-Print Assumptions program_scripts_closed.
 
 (* ================================================================================================================== *)
 (* PART 5: the references of mapscripts headers and tables                                                             *)
@@ -812,7 +800,6 @@ Proof.
       * intros NS. destruct (teScript e) as [b|] eqn:TS; [|congruence]. apply (SC (teName e) b). cbn [scripts_of_top]. apply in_or_app. right.
         apply in_flat_map. exists tb. split; [exact Htb|]. apply in_flat_map. exists e. split; [exact He|]. rewrite TS. now left.
 Qed.
-Print Assumptions mapscripts_references_defined.
 
 (* ================================================================================================================== *)
 (* PART 6: hoisted text / movement labels (the labels patched into command arguments) are defined in the output         *)
@@ -957,7 +944,6 @@ Proof.
     destruct (program_mov_label_defined_once autovars switches true pf eq_refl ts p st _ _ H E Q) as (_ & tk & steps & J & _). eauto.
 Qed.
 End HOIST.
-Print Assumptions patch_labels_are_program_names.
 
 (* ================================================================================================================== *)
 (* PART 7: source texts - the main theorems                                                                            *)
@@ -1068,10 +1054,6 @@ Proof.
   split; [intros l Hl; apply count_occ_nodup_in; assumption|exact (program_author_labels_once optimize mp p prog SO HE NK)].
 Qed.
 End SOURCE.
-Print Assumptions program_labels.
-Print Assumptions program_closed_any_names.
-Print Assumptions patched_arguments_defined.
-Print Assumptions program_closed.
 
 (* ================================================================================================================== *)
 (* PART 8: examples - the hypotheses are satisfiable; what names_ok excludes, and a clash the property text does not    *)
